@@ -17,14 +17,21 @@ pub struct Case {
     pub input: Vec<u8>,
     /// which single element was corrupted
     pub element: String,
+    /// the well-formed header the input was derived from, when the generator kept it: it is parsed first (a receiver
+    /// usually sees good headers before a bad one)
+    pub base: Option<Vec<u8>>,
 }
 
 impl CaseIo for Case {
     fn to_json(&self) -> serde_json::Value {
-        json!({"input_hex": hex(&self.input), "input_esc": esc(&self.input), "element": self.element})
+        json!({"input_hex": hex(&self.input), "input_esc": esc(&self.input), "element": self.element, "base_hex": self.base.as_ref().map(|b| hex(b))})
     }
     fn from_json(v: &serde_json::Value) -> Option<Self> {
-        Some(Case { input: crate::engine::unhex(v.get("input_hex")?.as_str()?)?, element: v.get("element")?.as_str()?.to_string() })
+        Some(Case {
+            input: crate::engine::unhex(v.get("input_hex")?.as_str()?)?,
+            element: v.get("element")?.as_str()?.to_string(),
+            base: v.get("base_hex").and_then(|b| b.as_str()).and_then(crate::engine::unhex),
+        })
     }
     fn digest(&self) -> u64 {
         crate::engine::hash_bytes(&self.input)
@@ -90,6 +97,16 @@ pub fn judge_v1(c: &Case, st: &mut Stats) -> Verdict {
     let cls = format!("v1-{}", c.element);
     st.class(&cls);
     st.sample(&cls, || esc(x));
+    // a good header first, through every route (memoised results or a remembered version must not leak into the verdict
+    // on the corrupted one)
+    if let Some(b) = &c.base {
+        let _ = imp::v1_bytes(b);
+        let _ = imp::auto(b);
+        if let Ok(sb) = std::str::from_utf8(b) {
+            let _ = imp::v1_str(sb);
+            let _ = imp::v1_fromstr_addr(sb);
+        }
+    }
     let want = v1_expected(&c.element);
     let fail = |entry: &str, obs: String| {
         Err(Fail::new(
@@ -143,11 +160,22 @@ pub fn judge_v1(c: &Case, st: &mut Stats) -> Verdict {
             }
         }
     }
-    // auto: a complete error
+    // auto: a complete error; and since the binary parser rules a text line out at its first byte, the text parser's
+    // verdict - the error that names the element - is what comes back
     if let Ok(r) = imp::auto(x) {
         let is_ok = matches!(r, ppp::HeaderResult::V1(Ok(_)) | ppp::HeaderResult::V2(Ok(_)));
         if is_ok || !r.is_complete() {
             return fail("HeaderResult::parse", format!("{} [incomplete={}]", imp::short(&format!("{:?}", r)), r.is_incomplete()));
+        }
+        if x.first() != Some(&0x0D) {
+            let named = match &r {
+                ppp::HeaderResult::V1(Err(B1::Parse(e))) => c.element != "utf8" && v1_kind_ok(&c.element, e),
+                ppp::HeaderResult::V1(Err(B1::InvalidUtf8(_))) => c.element == "utf8" || (c.element == "after-cr" && x.iter().position(|&b| b == b'\r').map_or(false, |p| x[p + 1] >= 0x80)),
+                _ => false,
+            };
+            if !named {
+                return fail("HeaderResult::parse", format!("{} (the text parser's error was expected)", imp::short(&format!("{:?}", r))));
+            }
         }
     }
     Ok(())
@@ -183,6 +211,7 @@ pub fn gen_v1(t: &mut Tape) -> Case {
             gen::gen_port(t).to_string().into_bytes(),
         ];
     }
+    let base_line = p.render();
     let mut element = V1_ELEMENTS[t.below(V1_ELEMENTS.len() as u32) as usize];
     // one base in four is an UNKNOWN line (bare, or with ignored text); its corruptible elements are
     // the keyword, the protocol, the byte after the CR, the length and the encoding
@@ -273,7 +302,7 @@ pub fn gen_v1(t: &mut Tape) -> Case {
             }
             if let Some(mut l) = long_base {
                 l.extend_from_slice(&p.ending);
-                return Case { input: l, element: element.to_string() };
+                return Case { input: l, element: element.to_string(), base: None };
             }
         }
         "length" => {
@@ -286,7 +315,7 @@ pub fn gen_v1(t: &mut Tape) -> Case {
                 });
             }
             line.extend_from_slice(b"\r\n");
-            return Case { input: line, element: element.to_string() };
+            return Case { input: line, element: element.to_string(), base: None };
         }
         _ => {
             // invalid UTF-8 inside the line (UNKNOWN text, or inside a field)
@@ -297,14 +326,16 @@ pub fn gen_v1(t: &mut Tape) -> Case {
             line.extend_from_slice(bad);
             line.extend(tail);
             line.extend_from_slice(b"\r\n");
-            return Case { input: line, element: element.to_string() };
+            return Case { input: line, element: element.to_string(), base: None };
         }
     }
     let mut input = p.render();
     if t.chance(1, 4) {
         input.extend(gen::gen_trailer(t, false).0);
     }
-    Case { input, element: element.to_string() }
+    // the TCP base line is kept for the field faults (the UNKNOWN bases differ from `base_line`)
+    let base = if !unknown_base && matches!(element, "source-address" | "destination-address" | "source-port" | "destination-port" | "after-cr" | "keyword" | "protocol") { Some(base_line) } else { None };
+    Case { input, element: element.to_string(), base }
 }
 
 // ------------------------------------------------------------------------------------------ v2
@@ -421,7 +452,7 @@ pub fn run(r: &mut Runner) -> &'static str {
                     }
                     let mut x = h.clone();
                     x[pos] = val;
-                    let c = Case { input: x, element: "signature".into() };
+                    let c = Case { input: x, element: "signature".into(), base: None };
                     if let Err(f) = judge_v2(&c, st) {
                         return Some((c, f));
                     }
@@ -453,7 +484,7 @@ pub fn run(r: &mut Runner) -> &'static str {
                 x[12] = b12;
                 x[13] = b13;
                 for cut in [x.len(), 16] {
-                    let c = Case { input: x[..cut].to_vec(), element: element.into() };
+                    let c = Case { input: x[..cut].to_vec(), element: element.into(), base: None };
                     if let Err(f) = judge_v2(&c, st) {
                         return Some((c, f));
                     }
@@ -478,7 +509,7 @@ pub fn run(r: &mut Runner) -> &'static str {
                             x.extend_from_slice(&[vc, (fam << 4) | proto]);
                             x.extend_from_slice(&(l as u16).to_be_bytes());
                             x.extend(fill(seed.wrapping_add(l as u32) | 1, present));
-                            let c = Case { input: x, element: "length".into() };
+                            let c = Case { input: x, element: "length".into(), base: None };
                             if let Err(f) = judge_v2(&c, st) {
                                 return Some((c, f));
                             }
